@@ -336,31 +336,41 @@ def spell_flag(rng, node):
 
 
 # ---------------------------------------------------------------- sentence generation
+class Chunk(list):
+    """argv items that stay together (one named occurrence, or one adjacent block), with provenance."""
+
+    def __init__(self, items, node=None, value=None, form=None, group=None, kind="named"):
+        list.__init__(self, items)
+        self.node, self.value, self.form, self.group, self.kind = node, value, form, group, kind
+
+
 class Sentence:
     """Pieces of a command line for one command level, before linearisation."""
 
     def __init__(self):
-        self.named = []      # list of chunks (each a list of argv items that stay together, in order)
+        self.named = []      # Chunks of named occurrences
         self.pos = []        # positional words, in order (each (bytes, strict_side: None|'left'|'right'))
-        self.tail = None     # ("cmd", name_item, Sentence) -- everything after belongs to the subcommand
+        self.tail = None     # ("cmd", name_item, Sentence, node) -- everything after belongs to the subcommand
         self.blocks = []     # adjacent blocks (contiguous), placed like named chunks
 
     def empty(self):
         return not (self.named or self.pos or self.tail or self.blocks)
 
 
-def gen_sentence(rng, p, sent, present_p=0.7, valid=True, depth=0):
+def gen_sentence(rng, p, sent, present_p=0.7, valid=True, depth=0, group=None):
     """Append to `sent` the pieces that make parser p succeed (best effort), choosing randomly whether
-    optional things are present. Returns False when p cannot be satisfied by construction."""
+    optional things are present. `group` identifies the result field the pieces feed (occurrences of one
+    group must keep their relative order under permutation)."""
     k = p["k"]
+    g = group if group is not None else id(p)
     if k == "flag":
         if p["absent"] is None or rng.random() < present_p:
-            sent.named.append([spell_flag(rng, p)])
+            sent.named.append(Chunk([spell_flag(rng, p)], p, None, "flag", g))
         return True
     if k == "arg":
         v = gen_value(rng, p["ty"], valid=True, attached=rng.random() < 0.3)
         form, items = spell_arg(rng, p, v)
-        sent.named.append(items)
+        sent.named.append(Chunk(items, p, v, form, g))
         return True
     if k == "pos":
         v = gen_value(rng, p["ty"], valid=True)
@@ -383,17 +393,12 @@ def gen_sentence(rng, p, sent, present_p=0.7, valid=True, depth=0):
         return True
     if k == "con":
         for f in p["fields"]:
-            gen_sentence(rng, f, sent, present_p, valid, depth)
+            gen_sentence(rng, f, sent, present_p, valid, depth, group)
         return True
     if k == "adj":
         sub = Sentence()
         for f in p["fields"]:
-            gen_sentence(rng, f, sub, 0.9, valid, depth)
-        # an adjacent block: first field's item first, then the rest in declaration order
-        items = []
-        for ch in sub.named:
-            items.extend(ch)
-        # positionals of the block come after the leading named item
+            gen_sentence(rng, f, sub, 0.9, valid, depth, g)
         blk = []
         if sub.named:
             blk.extend(sub.named[0])
@@ -407,62 +412,80 @@ def gen_sentence(rng, p, sent, present_p=0.7, valid=True, depth=0):
         for b in sub.blocks:
             blk.extend(b)
         if blk:
-            sent.blocks.append(blk)
+            sent.blocks.append(Chunk(blk, p, None, "block", g, kind="block"))
         return True
     if k == "alt":
         choice = rng.choice(p["alts"])
-        return gen_sentence(rng, choice, sent, present_p, valid, depth)
+        return gen_sentence(rng, choice, sent, present_p, valid, depth, g)
     if k == "optional":
         if rng.random() < present_p:
-            return gen_sentence(rng, p["p"], sent, present_p, valid, depth)
+            return gen_sentence(rng, p["p"], sent, present_p, valid, depth, g)
         return True
     if k in ("many", "collect", "count"):
         for _ in range(rng.choice([0, 1, 1, 2, 3])):
-            gen_sentence(rng, p["p"], sent, 1.0, valid, depth)
+            gen_sentence(rng, p["p"], sent, 1.0, valid, depth, g)
         return True
     if k in ("some", "last"):
         for _ in range(rng.choice([1, 1, 2, 3])):
-            gen_sentence(rng, p["p"], sent, 1.0, valid, depth)
+            gen_sentence(rng, p["p"], sent, 1.0, valid, depth, g)
         return True
     if k in ("fallback", "fallback-with"):
         if rng.random() < present_p:
-            return gen_sentence(rng, p["p"], sent, present_p, valid, depth)
+            return gen_sentence(rng, p["p"], sent, present_p, valid, depth, g)
         return True
     if k in ("guard", "parse", "map", "hide", "hide-usage", "usage", "group-help", "boxed"):
-        return gen_sentence(rng, p["p"], sent, present_p, valid, depth)
+        return gen_sentence(rng, p["p"], sent, present_p, valid, depth, group)
     if k in ("pure", "pure-with", "fail"):
         return True
     raise ValueError("gen_sentence: " + k)
 
 
-def linearize(rng, sent, shuffle=True, dd_p=0.25):
-    """Turn a Sentence into an argv list. Named chunks and blocks are shuffled (when allowed) and
-    interleaved with the positional words; strict positionals go after `--`."""
-    chunks = [list(c) for c in sent.named] + [list(b) for b in sent.blocks]
+class Piece:
+    """One unit of a linearised command line."""
+    __slots__ = ("kind", "items", "chunk", "level", "node")
+
+    def __init__(self, kind, items, chunk=None, level=0, node=None):
+        self.kind, self.items, self.chunk, self.level, self.node = kind, list(items), chunk, level, node
+
+
+def pieces_of(rng, sent, shuffle=True, level=0, order=None):
+    """Linearise a Sentence into Pieces: kind in chunk | pos | dd | cmdname. Named chunks and blocks are
+    shuffled (when allowed) and interleaved with the left positional words; strict positionals go after
+    `--`; the subcommand (if any) comes last."""
+    chunks = list(sent.named) + list(sent.blocks)
     if shuffle:
         rng.shuffle(chunks)
     left = [w for w, side in sent.pos if side != "right"]
     right = [w for w, side in sent.pos if side == "right"]
-    # free positionals may also be moved to the right of `--` as a trailing group
     out = []
-    # interleave: positions for the left positional words among the chunks
     slots = sorted(rng.randrange(0, len(chunks) + 1) for _ in left) if shuffle else [len(chunks)] * len(left)
     li = 0
     for i, ch in enumerate(chunks + [None]):
         while li < len(left) and slots[li] == i:
-            out.append(left[li])
+            out.append(Piece("pos", [left[li]], level=level))
             li += 1
         if ch is not None:
-            out.extend(ch)
+            out.append(Piece("chunk", ch, chunk=ch, level=level))
     if right:
-        out.append(b"--")
-        out.extend(right)
+        out.append(Piece("dd", [b"--"], level=level))
+        for w in right:
+            out.append(Piece("rpos", [w], level=level))
     if sent.tail is not None:
-        _, name_item, sub, _node = sent.tail
-        # the level's own strict positionals cannot coexist with a command tail in our generators
-        out.append(name_item)
-        out.extend(linearize(rng, sub, shuffle, dd_p))
+        _, name_item, sub, node = sent.tail
+        out.append(Piece("cmdname", [name_item], level=level, node=node))
+        out.extend(pieces_of(rng, sub, shuffle, level + 1))
     return out
+
+
+def flatten(pieces):
+    out = []
+    for p in pieces:
+        out.extend(p.items)
+    return out
+
+
+def linearize(rng, sent, shuffle=True, dd_p=0.25):
+    return flatten(pieces_of(rng, sent, shuffle))
 
 
 # ---------------------------------------------------------------- mutation of argument vectors
@@ -675,3 +698,9 @@ def gen_argv(rng, opts, present_p=0.7, shuffle=True):
     s = Sentence()
     gen_sentence(rng, opts["p"], s, present_p)
     return linearize(rng, s, shuffle)
+
+
+def gen_pieces(rng, opts, present_p=0.7, shuffle=True):
+    s = Sentence()
+    gen_sentence(rng, opts["p"], s, present_p)
+    return pieces_of(rng, s, shuffle)
